@@ -1046,9 +1046,6 @@ def suites(ctx, known):
 
 
 def run(ctx):
-    for k in LOCAL_KNOWN:
-        if k["id"] not in [x.get("id") for x in ctx.known]:
-            ctx.known.append(k)
     known = Known(ctx)
     pn, pt = suites(ctx, known)
     extra = {}
@@ -1088,9 +1085,6 @@ def run(ctx):
 
 
 def replay(ctx, rep):
-    for k in LOCAL_KNOWN:
-        if k["id"] not in [x.get("id") for x in ctx.known]:
-            ctx.known.append(k)
     known = Known(ctx)
     pn, pt = suites(ctx, known)
     case = rep["case"]
